@@ -35,9 +35,20 @@ class AsyncResult(object):
         self._is_exc = is_exc
         self._obj = obj
         self._is_ready = True
-        for cb in self._callbacks:
-            cb(self)
+        # every registered callback runs exactly once, in registration order: one failing callback
+        # does not stop the others (as with concurrent.futures); the first error is re-raised once
+        # all of them have run, so it still surfaces in the thread that is serving the connection
+        callbacks = self._callbacks[:]
         del self._callbacks[:]
+        first_error = None
+        for cb in callbacks:
+            try:
+                cb(self)
+            except Exception as ex:
+                if first_error is None:
+                    first_error = ex
+        if first_error is not None:
+            raise first_error
 
     def wait(self):
         """Waits for the result to arrive. If the AsyncResult object has an
